@@ -25,6 +25,17 @@ CHECKS["C04"] = dict(engine="cache", category="exploration",
 CHECKS["C05"] = dict(engine="cache", category="exploration",
    text="Same runs, generator biased to deletion traffic (requests before/after targets, deleting deletions, other authors' ids and addresses, 3-element tags, evicted requests); every removal and refusal is attributed to a cause and must involve only the author's own events or capacity eviction. Sampling, not proof.",
    note=CACHE_NOTE, technique="deterministic simulation: refinement with cause attribution per author", design="3/C05")
+CHECKS["C15"] = dict(engine="concurrent-cache", category="exploration",
+   text="Seeded search over statement-level interleavings of 2-4 clients on one EventCache (direct calls or CacheHandler sessions): every history is checked for linearizability against a sequential functional specification (lock-acquisition order as witness, porcupine when the witness does not explain the results) and every query result for the capacity / one-version / deletion invariants. Data races are observed only through their effect at statement granularity. Sampling, not proof.",
+   note="Trusted: cooperative scheduler + instrumenter, porcupine v1.3.0, the functional cache specification (c15_concurrent.go) which is defined for unique created_at and strict references only.",
+   technique="deterministic simulation: seeded schedules + linearizability check (porcupine) of recorded histories", design="3/C15")
+MERGE_NOTE = "Trusted: cooperative scheduler + instrumenter; scripted children stand in for real child handlers; attribution of forwarded messages to child emissions is by pointer identity."
+CHECKS["C08"] = dict(engine="merge", category="exploration",
+   text="Seeded search over interleavings of 2-4 scripted children's outputs with each other and with client input on the real MergeHandler session: per REQ incarnation the stream before the EOSE (matching, distinct, ordered, limited), the EOSE itself (never early, never twice, present once all children sent theirs, absent after a CLOSE the children saw first) and the pass-through after it are judged from stamped histories. Sampling, not proof.",
+   note=MERGE_NOTE, technique="deterministic simulation: seeded message interleavings + per-incarnation stream oracle", design="3/C08")
+CHECKS["C09"] = dict(engine="merge", category="exploration",
+   text="Same runs as C08: at the final quiescent point the OK and COUNT replies are counted per request and compared with the children's verdicts, reasons and counts (conjunction, first rejecting reason as prefix, maximum), and no aggregate may precede the last child's reply. Sampling, not proof.",
+   note=MERGE_NOTE, technique="deterministic simulation: seeded reply interleavings + aggregation oracle at quiescence", design="3/C09")
 ALL = ["C%02d" % i for i in range(1, 21)]
 PENDING = "check not built yet in this revision of /verif (planned: DESIGN.md section 3); not claimed"
 m = {
@@ -39,6 +50,8 @@ m = {
  },
  "engines": [
    {"name": "router", "path": "sim/props/c07_router.go", "serves_properties": ["C07"], "kind_free_text": "deterministic simulation, statement-level cooperative scheduling, history oracle"},
+   {"name": "concurrent-cache", "path": "sim/props/c15_concurrent.go", "serves_properties": ["C15"], "kind_free_text": "statement-level interleavings of cache operations, porcupine linearizability check"},
+   {"name": "merge", "path": "sim/props/merge_engine.go", "serves_properties": ["C08", "C09"], "kind_free_text": "real MergeHandler over scripted children, every emission a scheduler decision"},
    {"name": "cache", "path": "sim/props/cache_engine.go", "serves_properties": ["C03", "C04", "C05"], "kind_free_text": "seeded operation and restart-fault sequences against an executable specification (relation)"},
  ],
  "checks": [],
